@@ -103,6 +103,8 @@ pub async fn restore(
     // through the link would land outside the destination. This can't happen within one
     // tree, but the listing of an incomplete version is stitched from several.
     let mut restored_symlinks: Vec<Apath> = Vec::new();
+    // Directories that could not be created: what's inside them fails too.
+    let mut failed_dirs: Vec<Apath> = Vec::new();
     while let Some(entry) = stitch.next().await {
         task.set_name(format!("Restore {}", entry.apath));
         if let Some(link) = restored_symlinks
@@ -119,6 +121,20 @@ pub async fn restore(
             continue;
         }
         let path = destination.join(&entry.apath[1..]);
+        if entry.kind() != Kind::Dir && !failed_dirs.iter().any(|d| d.is_prefix_of(&entry.apath)) {
+            // Normally the parent was restored from its own entry, earlier in the index.
+            // It's missing if only this entry was selected, or if the index hunk holding
+            // the directory's entry was lost: what remains should still be restored.
+            if let Some(parent) = path.parent().filter(|parent| !parent.exists()) {
+                if let Err(err) = create_dir_all(parent) {
+                    monitor.error(Error::RestoreDirectory {
+                        path: parent.to_owned(),
+                        source: err,
+                    });
+                    continue;
+                }
+            }
+        }
         match entry.kind() {
             Kind::Dir => {
                 monitor.count(Counter::Dirs, 1);
@@ -129,6 +145,7 @@ pub async fn restore(
                             path: path.clone(),
                             source: err,
                         });
+                        failed_dirs.push(entry.apath.clone());
                         continue;
                     }
                 }
